@@ -21,6 +21,7 @@ package main
 import (
 	"context"
 	"fmt"
+	"os"
 	"strconv"
 	"sync"
 	"sync/atomic"
@@ -77,6 +78,9 @@ func runCons(t *testing.T, tk []string) string {
 	pollmax, keepctl, startoff := int(hx.Atoi(tk[9])), tk[10] == "1", hx.Atoi(tk[11])
 	rng := hx.NewRng(seed)
 	log := &sim.Log{}
+	partial := func() string { return log.String() }
+	sim.Partial.Store(&partial)
+	defer sim.Partial.Store(nil)
 	net := &sim.Net{}
 	var faultsOn atomic.Bool
 	faultsOn.Store(true)
@@ -117,6 +121,9 @@ func runCons(t *testing.T, tk []string) string {
 			kmsg.SkipTags(&b)
 		}
 		if req.ReadFrom(b.Src) == nil {
+			if len(req.Topics) == 0 {
+				log.Add("Fq0:%d:%d:%d", conn, req.SessionID, req.SessionEpoch)
+			}
 			for _, rt := range req.Topics {
 				for _, rp := range rt.Partitions {
 					log.Add("Fq:%d:%d:%d:%d:%d", conn, rp.Partition, rp.FetchOffset, req.SessionID, req.SessionEpoch)
@@ -201,8 +208,14 @@ func runCons(t *testing.T, tk []string) string {
 			hx.St.Inc("fault.invalid-fetch-session-epoch")
 			resp.ErrorCode = kerr.InvalidFetchSessionEpoch.Code
 		default:
+			// A fabricated per-partition error answer bypasses kfake's session bookkeeping, so it is only
+			// given to requests that do not continue a session, and it establishes none (SessionID 0): a
+			// real broker that answers inside a session also records the request's offsets.
+			if req.SessionEpoch > 0 {
+				return nil, nil, false
+			}
 			hx.St.Inc("fault.fetch-partition-error")
-			resp.SessionID = req.SessionID
+			resp.SessionID = 0
 			for _, rt := range req.Topics {
 				st := kmsg.NewFetchResponseTopic()
 				st.Topic, st.TopicID = rt.Topic, rt.TopicID
@@ -373,6 +386,9 @@ func runCons(t *testing.T, tk []string) string {
 	}
 	if keepctl {
 		copts = append(copts, kgo.KeepControlRecords())
+	}
+	if os.Getenv("VERIF_DEBUG") != "" {
+		copts = append(copts, kgo.WithLogger(kgo.BasicLogger(os.Stderr, kgo.LogLevelDebug, nil)))
 	}
 	co, err := kgo.NewClient(copts...)
 	if err != nil {
